@@ -13,11 +13,11 @@ CLAIMED = {
  "C02": ("exploration",
          "model-based property testing of call histories: API-built rules with generated attribute combinations and histories of execute/focus/pop/clear/reset/enable/flag steps, judged against a model interpreter of the eligibility gate (exact trace); exhaustive small-scope enumeration of attribute assignments for 3 rules",
          "Every execute of every generated history must produce exactly the firing trace, fired count and active agenda group of the model written from the statement (salience order with insertion order among ties, enabled/date/focus gates, no-loop until reset, one rule per activation group per pass, lock-on-active once per activation). Large rule sets (21-60) expose unstable sorting. Shapes the statement leaves open (pop/clear returning to a locked group, a lock-on-active rule re-activating its own group) are not judged.",
-         "Trusts the 120-line model in harness/src/c02.rs; date boundaries excluded by construction; rules_evaluated not compared.",
+         "Trusts the model in harness/src/c02.rs; date boundaries excluded by construction; rules_evaluated not compared. The public activate_agenda_group call is part of the history alphabet (a history is cut where its interleaving with other focus operations is unspecified).",
          "DESIGN.md §6 C02"),
  "C03": ("exploration",
          "differential property testing of looping rule sets (generated counters, always-true rules, toggles, chains) against a multi-pass REF interpreter with no-loop, plus fixpoint re-evaluation and a termination watchdog",
-         "For every generated program and every max_cycles in 0..=64: the call returns (120 s watchdog in a monitor process), cycle_count <= max_cycles, rules_fired = callbacks, the pass count / firing sequence / final facts equal REF's, and when the engine stops early no eligible rule is true on its own final facts. Both execute_with_callback and execute are driven.",
+         "For every generated program and every max_cycles in 0..=64: the call returns (120 s watchdog in a monitor process), cycle_count <= max_cycles, rules_fired = callbacks, the pass count / firing sequence / final facts equal REF's, and when the engine stops early no eligible rule is true on its own final facts. Both execute_with_callback and execute are driven; part reuse makes 2-3 calls on one engine (activation groups, failing actions) and judges the per-call clauses.",
          "Trusts REF; termination means 'returns within the 120 s watchdog'; wall-clock timeout disabled as the quantifier says.",
          "DESIGN.md §6 C03"),
  "C20": ("fault_enumeration",
@@ -31,19 +31,24 @@ CLAIMED = {
          "States with re-export clauses are judged by necessary/sufficient bounds only (the repository's own tests call their meaning unsettled); 4 module names bound the cycle length.",
          "DESIGN.md §6 C18"),
  "C19": ("exploration",
-         "differential property testing under perturbed schedules: generated rule sets x thread configurations, each executed repeatedly with a yield/spin/sleep hook at schedule points inside the worker loop, compared with the sequential path of the same engine and with REF",
+         "differential property testing under perturbed schedules: generated rule sets x thread configurations, each executed repeatedly with a yield/spin/sleep hook at schedule points inside the worker loop, compared with the sequential path of the same engine, with REF, and (for rules whose registered functions write facts read at lower salience) with a level-by-level model",
          "For every generated configuration and every repetition: the call returns, there is exactly one execution context per enabled rule, the (rule, fired) map and both counters equal the sequential path, and the sequential verdicts equal REF where defined. Schedules are sampled (OS + hook), not enumerated: a sound oracle with stress-level schedule coverage.",
-         "Real threads; schedule coverage is whatever the OS and the H5 hook produce. No custom functions, so actions do not change the facts.",
+         "Real threads; schedule coverage is whatever the OS and the H5 hook produce. Fact-writing actions only through registered functions whose readers sit at a strictly lower salience (part writers), so the one-by-one result is order-independent inside a level.",
          "DESIGN.md §6 C19, §8"),
  "C04": ("exploration",
          "grammar-based property testing of the GRL parser: files generated from the documented grammar with layout/comment noise, judged by a full structural round trip against the generating AST, by a metamorphic relation (each rule of a file equals the canonical one-line print of that rule parsed alone) and by agreement of the three entry points; exhaustive enumeration of attribute subsets/orders and of small condition trees; optional libFuzzer target over the same byte decoding",
          "Every parsed Rule (name, salience, flags, groups, dates, condition tree modulo associativity, action list) must equal what was written, in source order, whatever the whitespace, line breaks, comments and neighbouring rules; parse_rule and parse_with_modules must agree with parse_rules. 11 recorded findings (string literals are not opaque to the regex-split parser, $-forms, parenthesised left sides) are excluded by per-finding generator switches and re-checked through their witnesses on every run.",
          "Grammar = the documented one minus aspirational constructs; Rule.description is not judged (the statement does not list it). Each known finding's switch is armed only while its `known:` line is present.",
          "DESIGN.md §6 C04, §10.5"),
+ "C05": ("exploration",
+         "fuzzing and property-based testing of 14 parser / evaluator entry points with the oracle 'the call returns': random search over three input families (raw bytes, token soups in valid skeletons, 12 mutation operators over valid seeds and grammar-printed rules) shrunk by proptest, exhaustive single-edit enumeration of every seed (truncation at every byte, every deletion, multi-byte insertion at every position, extreme numbers, bracket groups), exhaustive deep-nesting/long-chain enumeration to 4 KiB with large cases in a child process (stack overflow and hang become exit statuses); thorough adds the engine built at opt-level 0 with overflow checks and a coverage-guided libFuzzer+ASan campaign per entry point",
+         "Every one of ~500k (quick) / ~9M (thorough) generated texts per run, on each entry point it applies to, must come back as a value or an error: a panic (any site), a stack overflow, an abort or a call that outlives the watchdog is a violation unless it is the recorded finding C05-F10 (super-cubic regex matching in the third-party matcher), whose witness is replayed on every run. While F10 stands, texts for the regex-based GRL entry points are bounded (condition atoms <= 48 characters, rule text <= 192 bytes) so that the search can continue.",
+         "Termination = returns within the 120 s watchdog (wall clock, as the quantifier says; slowest case seen under the F10 bound: 3.3 s). Stack depth is a property of the build: the default harness build has the engine at opt-level 2, the thorough command adds the opt-level-0 build.",
+         "DESIGN.md §6 C05, §10.5"),
  "C06": ("exploration",
-         "stateful property testing of the incremental RETE engine: generated single-type rule sets converted by the real GRL loader with recorder-wrapped actions, histories of insert/update/retract/fire_all/reset, judged by REF on the matched fact's contents at firing time, a completeness oracle for the first fire_all, and a 4-view working-memory invariant; exhaustive short histories",
-         "Every firing in every generated history is checked at the moment it happens: the matched handle (exposed by a hook) is live and REF says the rule's condition is true of exactly the contents the engine presents; when actions are no-ops and rules no-loop, the first fire_all fires exactly the satisfied rules once; all working-memory views agree after every operation and retracted handles are rejected. Bounded by <= 6 facts, <= 3 types, <= 4 rules, histories <= 15.",
-         "Trusts REF on a well-typed sub-core (absent fields, multi-type joins, multi-operator arithmetic excluded); cross-type activations are not judged.",
+         "stateful property testing of the incremental RETE engine: generated single-type rule sets converted by the real GRL loader with recorder-wrapped actions, histories of insert/update/retract/fire_all/reset, judged by REF on the matched fact's contents at firing time, a completeness oracle for every fire_all of the all-noop sub-domain, and a 4-view working-memory invariant; exhaustive short histories",
+         "Every firing in every generated history is checked at the moment it happens: the matched handle (exposed by a hook) is live and REF says the rule's condition is true of exactly the contents the engine presents; when actions are no-ops and rules no-loop, every fire_all fires each armed rule that a newly written live fact satisfies, and nothing that no live fact satisfies; all working-memory views agree after every operation and retracted handles are rejected. Bounded by <= 6 facts, <= 3 types, <= 4 rules, histories <= 15.",
+         "Trusts REF on a well-typed sub-core (multi-type joins, multi-operator arithmetic excluded); facts may lack a field: a firing is flagged only if the condition is false under both readings of an absent field (null / atom false), demanded only if true under both; cross-type activations are not judged.",
          "DESIGN.md §6 C06"),
  "C07": ("exploration",
          "model-based property testing of the RETE agenda (validity predicate on every pop over generated add/pop/mark/focus/reset sequences, exhaustive to length 5-6) and termination testing of the three fire_all entry points with fuel-counting actions under a watchdog",
@@ -82,7 +87,7 @@ CLAIMED = {
          "DESIGN.md §6 C14"),
  "C15": ("exploration",
          "exhaustive small-scope enumeration of knowledge-base operation sequences against an ordered-list model, and Wing-Gong linearizability checking of recorded 3-thread histories under a schedule-perturbation hook",
-         "All 25^4 (quick) / 25^5 (thorough) operation sequences and 60k-1M random ones are compared observer by observer with the model after every step; 16k-50k concurrent programs x 50-500 repetitions are checked for linearizability against the same model, plus deadlock detection.",
+         "All 25^4 (quick) / 25^5 (thorough) operation sequences and 60k-1M random ones are compared observer by observer with the model after every step; 16k-50k concurrent programs x 50-500 repetitions are checked for linearizability against the same model, plus deadlock detection; part many drives 21-60 rules (listing order and lookup against a stable-sort model).",
          "Schedules are sampled (OS + yield hook), not enumerated; the version is modelled relationally (must grow on every real change; rejected duplicate add must not move it).",
          "DESIGN.md §6 C15, §8"),
  "C16": ("exploration",
@@ -98,7 +103,7 @@ CLAIMED = {
  "C13": ("exploration",
          "model-based property testing (proptest-driven byte strings decoded into timestamp sequences + exhaustive small-scope enumeration) against an executable watermark/late-data model",
          "Every prefix of every generated sequence is compared with a model written from the statement (watermark value and monotonicity, accepted/side-output/dropped routing, statistics, conservation). Random search over lengths up to 12 plus complete enumeration of short sequences over a 6-value domain for 20 configurations; bounded by those sizes, no claim beyond them.",
-         "Trusts the harness model (60 lines, written from the statement); Periodic/Custom strategies (wall clock / no-op) are outside the statement.",
+         "Trusts the harness model (60 lines, written from the statement); the Periodic strategy is driven with real sleeps and judged against the watermark observed through the API just before each call; Custom (no-op) is outside the statement.",
          "DESIGN.md §6 C13"),
 }
 
@@ -113,6 +118,11 @@ def hooks_commits():
 
 NA_REASON = {}
 
+# thorough commands that are more than one run of the same binary
+THOROUGH = {
+ "C05": "./check C05 thorough && VERIF_PROFILE=o0 ./check C05 quick && tools/c05_fuzz.sh 1000000 5000",
+}
+
 def main():
     checks = []
     for pid in ALL:
@@ -122,7 +132,7 @@ def main():
         checks.append({
             "property_id": pid,
             "quick_cmd": f"./check {pid} quick",
-            "thorough_cmd": f"./check {pid} thorough",
+            "thorough_cmd": THOROUGH.get(pid, f"./check {pid} thorough"),
             "evidence_file": f"/verif/evidence/{pid}.json",
             "replay_cmd_template": f"./check {pid} --replay {{path}}",
             "engine": "rre-check",
